@@ -188,3 +188,27 @@ Proof.
   split; [repeat constructor|]. split; [vm_compute; discriminate|].
   vm_compute. auto.
 Qed.
+
+(* The cache cap (_cache_result: more than 1000 entries -> the entry with the smallest timestamp goes, the earliest
+   inserted among equals).  1001 successful requests for distinct prompts, the first at time 0 and the others at
+   time 5: the first prompt is gone (asking again consults the executor), the second is still a hit; asking for
+   the first again evicts the second. *)
+Definition fill (n : nat) : list op := map (fun k => Run (reqS (Z.of_nat k))) (seq 1 n).
+Definition cfgBig := mkCfg true 2 10 true 100000 GAnd 10 false false.
+Definition s_full := fst (run_ops cfgBig init (Run (reqS 0) :: Tick 5 :: fill 1000)).
+
+Example ex_cache_capped :
+  Z.of_nat (length (cache s_full)) = cache_cap /\ zcalls s_full = 1001 /\
+  lookup 0 (cache s_full) = None /\ lookup 1 (cache s_full) <> None /\
+  (let '(s', o) := run_req cfgBig s_full (reqS 1) in r_cached o = true /\ zcalls s' = 1001) /\
+  (let '(s', o) := run_req cfgBig s_full (reqS 0) in
+   r_cached o = false /\ zcalls s' = 1002 /\ Z.of_nat (length (cache s')) = cache_cap /\
+   lookup 1 (cache s') = None /\ lookup 2 (cache s') <> None).
+Proof. vm_compute. repeat split; discriminate. Qed.
+
+(* an entry stamped earlier than everything in a full cache is itself the minimum: it evicts itself *)
+Example ex_cache_evicts_newcomer :
+  let s := advance s_full (-100) in
+  let '(s', o) := run_req cfgBig s (reqS 7000) in
+  r_cached o = false /\ lookup 7000 (cache s') = None /\ Z.of_nat (length (cache s')) = cache_cap.
+Proof. vm_compute. repeat split; discriminate. Qed.
